@@ -69,6 +69,9 @@ type Violation struct {
 	Class  string `json:"class"`  // violation class; minimisation preserves it
 	Sig    string `json:"sig"`    // narrow signature for known-findings matching
 	Detail string `json:"detail"` // human readable
+	// ReplayP, when set, is an explicit program reproducing exactly this violation
+	// (e.g. the single failing evaluation of a batch); it replaces Case.P in the replay file.
+	ReplayP json.RawMessage `json:"replay_p,omitempty"`
 }
 
 // Outcome is what executing a Case produced.
@@ -89,6 +92,17 @@ type Outcome struct {
 	Evals        int            `json:"evals,omitempty"` // sub-evaluations inside the run (default 1)
 	Log          []string       `json:"log,omitempty"`
 	Recorded     []sim.Switch   `json:"recorded,omitempty"` // schedule decisions taken (set when a violation was found)
+}
+
+// SetReplayP attaches an explicit reproducing program to the most recent violation.
+func (o *Outcome) SetReplayP(v any) {
+	if len(o.Violations) == 0 {
+		return
+	}
+	b, err := json.Marshal(v)
+	if err == nil {
+		o.Violations[len(o.Violations)-1].ReplayP = b
+	}
 }
 
 func (o *Outcome) AddClass(format string, a ...any) {
